@@ -91,9 +91,20 @@ def _reinit():
 
 # ---------------------------------------------------------------- arithmetic
 
+def const_tree(n, limit=16):
+    """n is an ite tree whose leaves are all constants (e.g. an index chosen by comparisons)"""
+    if n.op == 'const': return True
+    if n.op != 'ite' or limit <= 0: return False
+    return const_tree(n.args[1], limit - 1) and const_tree(n.args[2], limit - 1)
+
 def binop(op, a, b, ty):
     if op == 'fsub':
         return binop('fadd', a, fneg(b), ty)
+    if ty.startswith('i') and ty != 'i1':
+        if a.op == 'ite' and b.op == 'const' and const_tree(a):
+            return ite(a.args[0], binop(op, a.args[1], b, ty), binop(op, a.args[2], b, ty))
+        if b.op == 'ite' and a.op == 'const' and const_tree(b):
+            return ite(b.args[0], binop(op, a, b.args[1], ty), binop(op, a, b.args[2], ty))
     if op in ('fmul', 'fdiv'):
         # sign extraction (exact in IEEE-754: the sign of a product/quotient is the xor of the
         # operand signs): (-a)*b = -(a*b), a*(-c) = -(a*c) for constants c with the sign bit set.
@@ -166,6 +177,8 @@ def fneg(a):
     return mk('fneg', None, (a,), a.ty)
 
 def cast(op, a, sty, dty):
+    if a.op == 'ite' and op in ('zext', 'sext', 'trunc') and const_tree(a):
+        return ite(a.args[0], cast(op, a.args[1], sty, dty), cast(op, a.args[2], sty, dty))
     if is_const(a):
         if op in ('zext', 'trunc') and dty.startswith('i'):
             return const_int(int(dty[1:]), a.attr[1])
